@@ -21,3 +21,8 @@ CHECKS["C10"] = {
   "text": "Half is exhaustive (every pattern in every spelling). float/double/x86_fp80/fp128/ppc_fp128 are explored by structured boundary sets and rapid-drawn patterns in all spellings including short hex forms (split as LLVM's lexer does) and arbitrary decimal strings for double (halfway cases, subnormal and overflow range). Oracles: an independent reference reading of every literal form (h/ref/floatlit.go) and LLVM's own reading of input versus output in batches of 200 globals.",
   "note": "Trusts strconv.ParseFloat as the correctly rounded decimal->double reference, the reference codec, and LLVM 14. Non-canonical NaN payloads, invalid x87 encodings and ppc_fp128 pairs that are not canonical 106-bit double-doubles are open known findings: excluded by construction and counted while they still reproduce.",
 }
+CHECKS["C11"] = {
+  "technique": "property-based testing: rapid byte strings (and exhaustive short strings) through the identifier/string encoders against an independent model of LLVM's lexer, and through 24 grammar positions of API-built and parsed modules with llir re-parse (left inverse) and LLVM 14 differential against a fully \\XX-escaped reference spelling",
+  "text": "Every encoder output is lexed by a reference model of LLVM's lexer and must be one token that is a name (never a numeric ID) with exactly the input bytes; all strings up to length 3/4 over a 21-byte alphabet of dangerous bytes are enumerated, longer ones drawn by rapid. At module level the string is placed at each of 24 positions through the API and through text, printed, re-parsed by llir (bytes must come back: a left inverse, hence injectivity) and read by llvm-as|llvm-dis, whose reading must equal its reading of my own fully escaped spelling of the same bytes.",
+  "note": "Trusts the reference lexer model (h/ref/lex.go, written from LLLexer.cpp rules), LLVM 14, and the position templates in checks/c11. Domain: names are non-empty and NUL-free; all-digit type names are numbered types in the library's data model. Open finding KF-C11-type-name-quoted-digits.",
+}
